@@ -96,7 +96,9 @@ def sites():
     for f in files:
         rel=os.path.relpath(f,'/repo')
         if rel in SKIP: continue
-        if pats and not any(fnmatch.fnmatch(rel,p) for p in pats): continue
+        if pats==['core']:
+            if rel.startswith('src/functions/'): continue
+        elif pats and not any(fnmatch.fnmatch(rel,p) for p in pats): continue
         text=open(f).read(); mask=code_mask(text)
         lines=text.split('\n'); offs=[0]
         for l in lines: offs.append(offs[-1]+len(l)+1)
